@@ -56,19 +56,35 @@ def permute(g, children, mode):
     return ch
 
 
-def materialize(path, children, link_dir=None):
-    """a child with `symlink: True` is created as a symbolic link to a regular file outside the input tree (in link_dir)"""
+def link_target_dir(link_dir, children):
+    os.makedirs(link_dir, exist_ok=True)
+    tgt = os.path.join(link_dir, '+lt_%d+' % len(os.listdir(link_dir)))
+    materialize(tgt, children, link_dir)
+    return tgt
+
+
+def materialize(path, children, link_dir=None, hidden_links=()):
+    """a child with `symlink: True` is created as a symbolic link to a regular file outside the input tree (in link_dir); a
+    directory child with `dirlink: True` as a symbolic link to a directory there.  `hidden_links` (dicts rel/name/children) are
+    further directory links that the abstract tree does not mention: with input.follow_symlinks off they must be invisible"""
     os.makedirs(path, exist_ok=True)
     for c in children:
         p = os.path.join(path, c['name'])
-        if 'children' in c: materialize(p, c['children'], link_dir)
+        if 'children' in c and c.get('dirlink') and link_dir:
+            if not os.path.lexists(p): os.symlink(link_target_dir(link_dir, c['children']), p)      # a repeated run finds the link in place
+        elif 'children' in c: materialize(p, c['children'], link_dir)
         elif c.get('symlink') and link_dir:
             os.makedirs(link_dir, exist_ok=True)
             tgt = os.path.join(link_dir, 'shared_%d_%s' % (len(os.listdir(link_dir)), c['name']))
             with open(tgt, 'wb') as f: f.write(c['content'].encode('utf-8'))
+            if os.path.lexists(p): os.unlink(p)
             os.symlink(tgt, p)
         else:
             with open(p, 'wb') as f: f.write(c['content'].encode('utf-8'))
+    for h in hidden_links:
+        d = os.path.join(path, *h['rel'])
+        if os.path.isdir(d) and not os.path.lexists(os.path.join(d, h['name'])):
+            os.symlink(link_target_dir(link_dir, h['children']), os.path.join(d, h['name']))
 
 
 @contextlib.contextmanager
@@ -136,6 +152,7 @@ def make_settings(st, outdir):
     s.rst.prefix = st.get('prefix'); s.rst.module_path_separator = st.get('sep', '.')
     s.rst.file_extensions_in_titles = st.get('ext_titles', False); s.rst.file_extensions_in_modules = st.get('ext_modules', False)
     s.output.directory = outdir
+    s.input.follow_symlinks = bool(st.get('follow', False))
     return s
 
 
@@ -157,7 +174,7 @@ def run_real(sb_dir, case, variant='v0', cwd_mode=None, loc='+loc+', keep_inputs
         parent = os.path.join(base, loc, '+i%d+' % k)
         p = os.path.join(parent, inp['name'])
         if keep_inputs and os.path.exists(p): pass       # second run over the very same files (mtimes untouched)
-        elif inp['kind'] == 'dir': materialize(p, inp['children'], os.path.join(base, '+vendor_q7+'))
+        elif inp['kind'] == 'dir': materialize(p, inp['children'], os.path.join(base, '+vendor_q7+'), inp.get('hidden_links', ()))
         elif inp['kind'] == 'file':
             os.makedirs(parent, exist_ok=True)
             with open(p, 'wb') as f: f.write(inp['content'].encode('utf-8'))
